@@ -137,6 +137,7 @@ class Sim:
         self.current = None
         self.invariants = []  # callables () -> None | (signature, detail)
         self.violations = []  # (signature, detail)
+        self.harness_errors = []  # tracebacks of programming errors of the harness itself (checks.common.note_exc)
         self.counters = {}
         self.max_runnable = 0
         self.multi_steps = 0  # steps at which >=2 threads were runnable
